@@ -367,8 +367,10 @@ COMPONENTS = {
 
 
 def write_evidence(prop, tier, seed, agg, wall, extra=None, violations=0):
-    path = os.path.join(os.path.dirname(os.path.dirname(
-        os.path.abspath(__file__))), "evidence", prop.ID + ".json")
+    edir = os.environ.get("VERIF_EVIDENCE_DIR") or os.path.join(
+        os.path.dirname(os.path.dirname(os.path.abspath(__file__))),
+        "evidence")
+    path = os.path.join(edir, prop.ID + ".json")
     os.makedirs(os.path.dirname(path), exist_ok=True)
     samples = sorted(agg.samples, key=lambda s: s["idx"])[:3]
     if not samples:
